@@ -26,6 +26,9 @@ MUTANTS = {
     'set_rbits_ignores_written': ('core.EntityMeta', '_set_rbits', [('obj._rbits_ |= rbits & ~wbits', 'obj._rbits_ |= rbits')], 'h_c20.track_step'),
     'volatile_read_tracked': ('core.EntityMeta', '_initialize_bits_', [('            if attr.is_volatile: bit = 0\n', '')], 'h_c20.upd_volatile'),
     'pg_null_as_eq': ('core.Entity', '_construct_optimistic_criteria_', [("'IS_NULL' if dbval is None else converter.EQ", "converter.EQ if obj._database_.provider.dialect == 'PostgreSQL' else ('IS_NULL' if dbval is None else converter.EQ)")], 'h_c20.upd_pg'),
+    'save_forgets_reads': ('core.Entity', '_save_updated_', [('obj._rbits_ |= obj._wbits_ & obj._all_bits_except_volatile_', 'obj._rbits_ = obj._wbits_ & obj._all_bits_except_volatile_')], 'h_c20.upd_twice'),
+    'save_forgets_reads_step': ('core.Entity', '_save_updated_', [('obj._rbits_ |= obj._wbits_ & obj._all_bits_except_volatile_', 'obj._rbits_ = obj._wbits_ & obj._all_bits_except_volatile_')], 'h_c20.track_step'),
+    'save_keeps_wbits': ('core.Entity', '_save_updated_', [('        obj._wbits_ = 0\n        obj._update_dbvals_(False, new_dbvals)', '        obj._update_dbvals_(False, new_dbvals)')], 'h_c20.track_step'),
     # ---- C21
     'dbset_no_raise': ('core.Entity', '_db_set_', [('            if rbits & bit:\n', '            if False:\n')], 'h_c21.reload_a'),
     'dbset_raise_on_wbits': ('core.Entity', '_db_set_', [('            if rbits & bit:\n', '            if wbits & bit:\n')], 'h_c21.reload_x'),
@@ -36,6 +39,7 @@ MUTANTS = {
     'dbset_null_equals_anything': ('core.Entity', '_db_set_', [('if unpickling or old_dbval == new_dbval or (', 'if unpickling or old_dbval == new_dbval or new_dbval is None or (')], 'h_c21.reload_n'),
     'float_always_equal': ('dbapiprovider.RealConverter', 'dbvals_equal', [('        return diff <= tolerance\n', '        return True\n')], 'h_c21.reload_f'),
     'attr_dbset_no_raise': ('core.Attribute', 'db_set', [('        if obj._rbits_ & bit:\n', '        if False:\n')], 'h_c21.o2o_relink_tracked'),
+    'set_rbits_from_queried_entity': ('core.EntityMeta', '_set_rbits', [('rbits = builtins.sum(obj._bits_except_volatile_.get(attr, 0) for attr in attrs)', 'rbits = builtins.sum(entity._bits_except_volatile_.get(attr, 0) for attr in attrs)')], 'h_c21.sub_query_read'),
     'second_changed_attr_unchecked': ('core.Entity', '_db_set_', [('            if rbits & bit:\n', "            if rbits & bit and attr.name != 'n':\n")], 'h_c21.reload_two'),
 }
 
